@@ -37,7 +37,11 @@ RULE = (
     'shard 0; result: returned, all NaN), the caller\'s objects holding other contents at an earlier call and '
     'rewritten in place, writes into operands / into the returned energy transfer (no shared memory, operands '
     'untouched by the call, same call gives the first result again), bystander coordinates and target / mode names '
-    'that only NFKC-normalise to names of the interface, the first call of each entry point in a fresh interpreter '
+    'that only NFKC-normalise to names of the interface, bystander coordinates - per event in the table of binned '
+    'data (also in the binned items of a Dataset, also Ei = Ef + dE / Ef = Ei - dE kept from a first conversion) and '
+    'dense per pixel - named after the names the graphs reserve but this conversion neither consumes nor produces '
+    '(the other geometry\'s energy, Ltotal, wavelength, energy, dspacing, Q, two_theta, positions, beams, gravity) '
+    'through convert and deduce_conversion_graph, the first call of each entry point in a fresh interpreter '
     '(bitwise equal to the same call here), operand dimensions of length 1..4 in every pair, and one heavy shard '
     '(2**20+7 events, 3 x 400001 points); distinct = (kernel, energy unit, tof unit, length units, dtype class, '
     'layout, energy decade) signatures, (form, geometry, layout, dtype) for the forms'
@@ -1248,6 +1252,72 @@ def deco_lookalike_coords(rng, ctx, da, kind):
     return _items(da, one), {}
 
 
+# ------------------------------------------- bystanders with reserved names ---
+# scipp looks a coordinate name up among the dense coordinates AND among the coordinates of the events.  The
+# conversion to energy transfer consumes tof, L1, L2 and the fixed energy of the geometry and produces
+# energy_transfer.  Every other name the package's graphs know - the OTHER geometry's energy, Ltotal, wavelength,
+# energy, dspacing, Q, two_theta, the positions and beams - is a bystander when it sits on the data next to the
+# supplied operands: the neutrons, the geometry and hence Ei - Ef are the same.  (Names that ARE operands or the
+# target are left out: an event-level L1 / L2 / fixed energy / tof is an operand for scipp, an energy_transfer
+# already present is returned as it is, and BOTH energies as dense coordinates is the documented refusal.)
+RESERVED_SCALARS = (('Ltotal', 'm'), ('wavelength', 'angstrom'), ('energy', 'meV'), ('dspacing', 'angstrom'),
+                    ('Q', '1/angstrom'), ('two_theta', 'rad'))
+RESERVED_VECTORS = (('position', 'm'), ('source_position', 'm'), ('sample_position', 'm'), ('incident_beam', 'm'),
+                    ('scattered_beam', 'm'), ('gravity', 'm/s^2'))
+
+
+def _bystanders(rng, kind, fixed, dims, shape, which):
+    """{reserved name: variable of the given dims / shape}; the other energy in unit and precision of the fixed one."""
+    _, other_en = _energy_names(kind)
+    out = {}
+    if 'other energy' in which:
+        out[other_en] = sc.array(dims=dims, values=rng.uniform(0.5, 50.0, size=shape),
+                                 unit=fixed.unit).to(dtype=fixed.dtype, copy=False)
+    if 'other names' in which:
+        for nm, u in RESERVED_SCALARS:
+            out[nm] = sc.array(dims=dims, values=rng.uniform(0.1, 10.0, size=shape), unit=u)
+        for nm, u in RESERVED_VECTORS:
+            out[nm] = sc.vectors(dims=dims, values=rng.normal(size=(*shape, 3)), unit=u)
+    return out
+
+
+def deco_event_bystanders(which, dataset=False):
+    """Binned data whose table of events carries per-event coordinates named after reserved names (e.g. the
+    incident energy Ei = Ef + dE of every neutron kept with the events of an indirect spectrometer)."""
+    def deco(rng, ctx, da, kind):
+        en, _ = _energy_names(kind)
+
+        def one(d):
+            def f(buf, dim):
+                buf = buf.copy()
+                for nm, v in _bystanders(rng, kind, d.coords[en], [dim], (buf.sizes[dim],), which).items():
+                    buf.coords[nm] = v
+                return buf, dim
+            out = _rebuild_events(d, f)
+            for k in d.coords:
+                out.coords.set_aligned(k, d.coords[k].aligned)
+            ctx.count('reserved names: coordinates put on the events', len(out.bins.coords) - len(d.bins.coords))
+            return out
+        da = one(da)
+        if dataset:
+            da = sc.Dataset({'sample': da, 'vanadium': da.copy()})
+        return da, {}
+    return deco
+
+
+def deco_dense_bystanders(rng, ctx, da, kind):
+    """Per-pixel (0-d for a single spectrum) dense coordinates named after the reserved names that are neither
+    operands nor the target nor the other energy."""
+    en, _ = _energy_names(kind)
+
+    d = da.copy(deep=False)  # the items of a dataset share its coordinates
+    dims, shape = (['pixel'], (d.sizes['pixel'],)) if 'pixel' in d.dims else ([], ())
+    for nm, v in _bystanders(rng, kind, d.coords[en], dims, shape, ('other names',)).items():
+        d.coords[nm] = v
+    ctx.count('reserved names: dense coordinates put on the data', len(RESERVED_SCALARS) + len(RESERVED_VECTORS))
+    return d, {}
+
+
 # FULLWIDTH LATIN SMALL LETTER E / D / T, FULLWIDTH LOW LINE, LATIN SMALL LETTER LONG S, SMALL ROMAN NUMERAL ONE,
 # SCRIPT SMALL O (all NFKC-equivalent to the ASCII spelling); a trailing COMBINING ACUTE ACCENT (another name in
 # every normal form)
@@ -1482,6 +1552,26 @@ def call_form(form, rng, ctx, scn, K, mon, kind, da, j):
             first = scn.convert(da, 'tof', 'energy_transfer', scatter=flag)
             back = {o: d for o, d in zip(first.dims, da.dims, strict=True) if o != d}
             da = first.drop_coords('energy_transfer').rename_dims(back)
+        elif pre == 'other energy of every event stored after a first conversion':
+            # the route by which such a coordinate comes to sit on events: Ei = Ef + dE (Ef = Ei - dE) of every
+            # neutron is kept with the events, the same data object is converted again later in the workflow
+            first = scn.convert(da, 'tof', 'energy_transfer', scatter=flag)
+            try:
+                dE, fixed = first.bins.coords['energy_transfer'], first.coords[en]
+                stored = _buf(fixed - dE if kind == 'direct' else fixed + dE)
+
+                def keep(buf, dim):
+                    buf = buf.copy()
+                    buf.coords[other_en] = stored.rename_dims({stored.dim: dim})
+                    return buf, dim
+                aligned = {k: da.coords[k].aligned for k in da.coords}
+                da = _rebuild_events(da, keep)
+                for k, al in aligned.items():
+                    da.coords.set_aligned(k, al)
+            except Exception:  # noqa: BLE001  the harness itself
+                ctx.oracle_error('reserved names: storing the other energy with the events')
+                return False
+            ctx.count('reserved names: other energy of the events taken from a first conversion')
 
         if how not in ('convert mixed', 'convert positional', 'convert keywords'):
             via = 'graph'
@@ -1625,6 +1715,20 @@ def _forms():
     add('names', 'look-alike coordinate names on the data', decorate=deco_lookalike_coords)
     add('names', 'look-alike coordinate names on the data; deduce_conversion_graph', decorate=deco_lookalike_coords,
         call='deduce_conversion_graph positional')
+    # (o) bystander coordinates, on the events and on the data, named after names the package reserves
+    for how in ('convert mixed', 'convert keywords', 'deduce_conversion_graph positional',
+                'deduce_conversion_graph keywords'):
+        add('reserved names', f"event coordinate named after the other geometry's energy; {how}",
+            decorate=deco_event_bystanders(('other energy',)), needs=_binned, call=how)
+    for how in ('convert mixed', 'deduce_conversion_graph positional'):
+        add('reserved names', f'event coordinates named after the other reserved names; {how}',
+            decorate=deco_event_bystanders(('other names',)), needs=_binned, call=how)
+        add('reserved names', f"dataset of binned items, event coordinates named after every reserved name; {how}",
+            decorate=deco_event_bystanders(('other energy', 'other names'), dataset=True), needs=_binned, call=how)
+        add('reserved names', f'dense coordinates named after the other reserved names; {how}',
+            decorate=deco_dense_bystanders, call=how)
+        add('reserved names', f'other energy of every event stored with the events after a first conversion; {how}',
+            before='other energy of every event stored after a first conversion', needs=_binned, call=how)
     add('second use', 'graph deep-copied', call='graph deep-copied')
     add('second use', 'graph pickled', call='graph pickled')
     return tuple(out)
@@ -1785,6 +1889,9 @@ def requirements(tier):
                          'all-unphysical workspaces: returned, every energy transfer NaN': 200,
                          'in place: operands rewritten between two calls': 50,
                          'aliasing: operands written / results written': 100,
+                         'reserved names: coordinates put on the events': 100,
+                         'reserved names: dense coordinates put on the data': 100,
+                         'reserved names: other energy of the events taken from a first conversion': 10,
                          'heavy: elements converted in one call': 2 * HEAVY_EVENTS + 2 * HEAVY_DENSE[0] * HEAVY_DENSE[1]},
             }
 
